@@ -28,6 +28,26 @@ theorem all_or_nothing (pf : PatchFn) (nz : Bool) (f : Form) (s : Stream) (st : 
     subst this
     rfl
 
+/-- **C13.1 against the documented schema — partial.** With validity as the schema documents it
+(unknown keys make a document invalid) all-or-nothing holds for streams in which no document carries
+unknown keys. Excluded point: see `unknown_keys_witness` (known finding `unknown-keys-ignored`). -/
+theorem all_or_nothing_documented_partial (pf : PatchFn) (nz : Bool) (f : Form) (rs : List RawDoc) (st : St)
+    (hx : ∀ r ∈ rs, r.extraKeys = false) (h : ∃ r ∈ rs, r.documentedValid = false) :
+    handle pf nz f (.docs (rs.map decodeRaw)) st = ⟨st, true, false, 0, false⟩ := by
+  apply all_or_nothing
+  refine Or.inr ⟨_, rfl, ?_⟩
+  obtain ⟨r, hr, hv⟩ := h
+  refine ⟨decodeRaw r, List.mem_map.mpr ⟨r, hr, rfl⟩, ?_⟩
+  simpa [RawDoc.documentedValid, hx r hr, decodeRaw] using hv
+
+/-- Witness of the known finding: a document that the schema documents as invalid (it carries an
+unknown key) is applied — the typed decoders drop the key before validation. -/
+theorem unknown_keys_witness :
+    let r : RawDoc := ⟨⟨true, .delete .background 1 true 0, true⟩, true⟩
+    r.documentedValid = false ∧
+    handle concretePf true .json (.docs [decodeRaw r]) ⟨[(1, [])], []⟩ = ⟨⟨[], [⟨.delete, 1, 0⟩]⟩, false, true, 0, false⟩ := by
+  decide
+
 /-- **C13.1, converse** A stream whose documents are all valid parses without error into exactly
 one operation per document, in document order. -/
 theorem parse_valid (nz : Bool) (f : Form) (ds : List Doc) (h : ∀ d ∈ ds, d.valid = true) :
@@ -231,8 +251,8 @@ theorem subresource_routing (pf : PatchFn) (kind : PatchKind) (k : Key) (g : Boo
       · simp at ha; subst ha
         cases kind <;> simp
 
-/-- A resolvable-kind operation with a usable payload issues its first API call exactly once. -/
-theorem calls_nonempty_once (pf : PatchFn) (op : Op) (c : Cluster) :
+/-- No operation issues more than three API calls (create + get + update is the longest). -/
+theorem calls_bounded (pf : PatchFn) (op : Op) (c : Cluster) :
     (Spec.calls pf op c).length ≤ 3 := by
   cases op with
   | create ign upd src =>
@@ -247,7 +267,11 @@ theorem calls_nonempty_once (pf : PatchFn) (op : Op) (c : Cluster) :
         · split
           · simp
           · split <;> simp
-  | delete p k g s => simp only [Spec.calls]; split <;> simp
+  | delete p k g s =>
+    simp only [Spec.calls]
+    split
+    · simp
+    · split <;> simp
   | patch kind k g s im ihe b =>
     simp only [Spec.calls]
     split
@@ -280,7 +304,7 @@ def sampleDocs : List Doc :=
 example :
     let r := handle concretePf true .yaml (.docs sampleDocs) ⟨[(3, cm1)], []⟩
     r.failed = true ∧ r.executed = true ∧ r.nerr = 1 ∧ r.st.cluster = [(3, [(1, .s 9)])] ∧
-    r.st.log.length = 7 := by decide
+    r.st.log.length = 8 := by decide
 
 /-- Non-vacuity of `all_or_nothing`: the fifth of six documents is invalid; nothing is applied. -/
 example :
